@@ -29,19 +29,33 @@ theorem C18_intn_range (s0 s1 n : BitVec 64) (hn : BitVec.slt 0#64 n = true) :
   simp only [BitVec.toInt_eq_toNat_cond]
   omega
 
-/-- Full statement: with a configuration `checkConfig` accepts (and a bound that fits Go's
-`int`), every announce gets `interval + d` seconds with `d = 0 ∨ 1 ≤ d ≤ max_increase_delta`;
-min interval follows by the same `d` iff configured. `d` is a function of infohash, peer ID and
+theorem wrap64_id (x : Int) (h1 : -2^63 ≤ x) (h2 : x < 2^63) : wrap64 x = x := by
+  unfold wrap64; omega
+
+/-- what the hypotheses of the statement buy: the second draw and both sums stay inside `int64` -/
+theorem no_wrap (c : Cfg) (k iv : Int) (hd : c.maxDelta ≤ maxDeltaLimit) (hlo : 0 ≤ k) (hhi : k < c.maxDelta)
+    (h0 : 0 ≤ iv) (h1 : iv ≤ intervalLimit) :
+    wrap64 (iv + wrap64 ((k + 1) * second)) = iv + (k + 1) * second := by
+  simp only [maxDeltaLimit, intervalLimit, second] at *
+  rw [wrap64_id ((k + 1) * 1000000000) (by omega) (by omega)]
+  exact wrap64_id _ (by omega) (by omega)
+
+/-- Full statement: with a configuration `checkConfig` accepts, and configured intervals that leave
+room for the largest accepted delta (`intervalLimit`, about 224 years), every announce gets
+`interval + d` seconds with `d = 0 ∨ 1 ≤ d ≤ max_increase_delta` — computed in `int64` as the code
+does; min interval follows by the same `d` iff configured. `d` is a function of infohash, peer ID and
 configuration only (`handle` is a function). -/
 def C18_Statement : Prop :=
-  ∀ (c : Cfg) (ih pid : Bytes) (iv miv : Int), checkConfig c = true → c.maxDelta < 2^63 →
+  ∀ (c : Cfg) (ih pid : Bytes) (iv miv : Int), checkConfig c = true →
+    0 ≤ iv → iv ≤ intervalLimit → 0 ≤ miv → miv ≤ intervalLimit →
     ∃ d : Int, (d = 0 ∨ (1 ≤ d ∧ d ≤ c.maxDelta)) ∧
       handle c ih pid iv miv = some (iv + d * second, if c.modifyMin then miv + d * second else miv)
 
 theorem C18_interval : C18_Statement := by
-  intro c ih pid iv miv hc hmax
+  intro c ih pid iv miv hc hiv0 hiv1 hmiv0 hmiv1
   simp only [checkConfig, Bool.and_eq_true, decide_eq_true_eq] at hc
-  obtain ⟨⟨hp0, hp1⟩, hd⟩ := hc
+  obtain ⟨⟨⟨hp0, hp1⟩, hd⟩, hdl⟩ := hc
+  have hmax : c.maxDelta < 2^63 := by simp only [maxDeltaLimit] at hdl; omega
   unfold handle
   obtain ⟨k, a, b, hk, _, _⟩ := C18_intn_range (deriveEntropyFromRequest ih pid).1
     (deriveEntropyFromRequest ih pid).2 (BitVec.ofNat 64 (2^24)) (by decide)
@@ -59,7 +73,9 @@ theorem C18_interval : C18_Statement := by
       omega
     obtain ⟨k2, a2, b2, hk2, hlo, hhi⟩ := C18_intn_range a b (BitVec.ofNat 64 c.maxDelta.toNat) hpos
     simp only [hk2]
-    refine ⟨k2.toInt + 1, Or.inr ⟨by omega, by omega⟩, rfl⟩
+    rw [hm] at hhi
+    refine ⟨k2.toInt + 1, Or.inr ⟨by omega, by omega⟩, ?_⟩
+    rw [no_wrap c k2.toInt iv hdl hlo hhi hiv0 hiv1, no_wrap c k2.toInt miv hdl hlo hhi hmiv0 hmiv1]
   · exact ⟨0, Or.inl rfl, by simp⟩
 
 /-- the first draw is `(s0 + s1) mod 2^24` of the request-derived state -/
@@ -84,7 +100,7 @@ theorem C18_unmodified (c : Cfg) (ih pid : Bytes) (iv miv : Int) :
 
 /-- … and if it does, the interval grows by at least one second (and at most the bound). -/
 theorem C18_modified (c : Cfg) (ih pid : Bytes) (iv miv : Int) (hc : checkConfig c = true)
-    (hmax : c.maxDelta < 2^63) :
+    (hiv0 : 0 ≤ iv) (hiv1 : iv ≤ intervalLimit) (hmiv0 : 0 ≤ miv) (hmiv1 : miv ≤ intervalLimit) :
     let s := deriveEntropyFromRequest ih pid
     let r := ((s.1 + s.2) % BitVec.ofNat 64 (2^24)).toInt
     (c.pn = (c.pd : Int) ∨ r * (c.pd : Int) < c.pn * 2^24) →
@@ -92,7 +108,8 @@ theorem C18_modified (c : Cfg) (ih pid : Bytes) (iv miv : Int) (hc : checkConfig
         handle c ih pid iv miv = some (iv + d * second, if c.modifyMin then miv + d * second else miv) := by
   intro s r h
   simp only [checkConfig, Bool.and_eq_true, decide_eq_true_eq] at hc
-  obtain ⟨⟨hp0, hp1⟩, hd⟩ := hc
+  obtain ⟨⟨⟨hp0, hp1⟩, hd⟩, hdl⟩ := hc
+  have hmax : c.maxDelta < 2^63 := by simp only [maxDeltaLimit] at hdl; omega
   unfold handle
   simp only [firstDraw]
   rw [if_pos h]
@@ -109,7 +126,9 @@ theorem C18_modified (c : Cfg) (ih pid : Bytes) (iv miv : Int) (hc : checkConfig
     (generateAndAdvance s.1 s.2).2.2 (BitVec.ofNat 64 c.maxDelta.toNat) hpos
   simp only [s] at hk2
   simp only [hk2]
-  exact ⟨k2.toInt + 1, by omega, by omega, rfl⟩
+  rw [hm] at hhi
+  refine ⟨k2.toInt + 1, by omega, by omega, ?_⟩
+  rw [no_wrap c k2.toInt iv hdl hlo hhi hiv0 hiv1, no_wrap c k2.toInt miv hdl hlo hhi hmiv0 hmiv1]
 
 /-- Across clients: for a fixed peer-derived half of the state, the first draw hits every
 64-bit value exactly once as the infohash-derived half ranges over all values, so each residue
@@ -121,13 +140,25 @@ theorem C18_fraction_partial (s1 t : BitVec 64) : ∃ s0 : BitVec 64, s0 + s1 = 
   intro s0' h
   rw [← h]; simp [BitVec.add_sub_cancel]
 
-/-- `checkConfig` accepts iff `0 < p ≤ 1 ∧ 0 < max_increase_delta` -/
+/-- `checkConfig` accepts iff `0 < p ≤ 1 ∧ 0 < max_increase_delta ≤ math.MaxInt32` -/
 theorem C18_checkConfig (c : Cfg) :
-    checkConfig c = true ↔ (0 < c.pn ∧ c.pn ≤ (c.pd : Int)) ∧ 0 < c.maxDelta := by
-  simp [checkConfig]
+    checkConfig c = true ↔ (0 < c.pn ∧ c.pn ≤ (c.pd : Int)) ∧ 0 < c.maxDelta ∧ c.maxDelta ≤ 2147483647 := by
+  unfold checkConfig maxDeltaLimit
+  simp only [Bool.and_eq_true, decide_eq_true_eq, and_assoc]
 
-/-- non-vacuity: a configuration satisfying the hypotheses -/
-example : checkConfig { pn := 1, pd := 2, maxDelta := 60, modifyMin := true } = true ∧ (60 : Int) < 2^63 := by
+/-- **D29, why the upper bound is there**: whatever `max_increase_delta` above 9223372035 the old
+`checkConfig` let through, a second draw at the top of its range makes the added duration wrap around
+`int64` — the "interval plus d seconds" comes out shorter than the interval (here: a delta of 10^10,
+a draw of 9223372036, thirty minutes become a negative duration). With the bound no draw does
+(`no_wrap`). -/
+theorem D29_unbounded_delta_wraps :
+    checkConfigPreD29 { pn := 1, pd := 1, maxDelta := 10000000000, modifyMin := false } = true ∧
+    wrap64 (1800 * second + wrap64 ((9223372036 + 1) * second)) < 0 := by
+  decide
+
+/-- non-vacuity: a configuration and intervals satisfying the hypotheses -/
+example : checkConfig { pn := 1, pd := 2, maxDelta := 60, modifyMin := true } = true ∧
+    (0 : Int) ≤ 1800 * second ∧ 1800 * second ≤ intervalLimit := by
   decide
 
 end VarInterval
